@@ -197,4 +197,74 @@ def solve (c : Cfg α) (dt0 : α) : St α × List (Ev α) :=
   (r.1, [Ev.dump (init c dt0)] ++ r.2 ++ [Ev.dump r.1])
 
 end
+/-!
+## The pinned code (before the `fix:`)
+
+Kept only so that `Props/C10.lean` can state, as theorems with explicit
+witnesses, that the three defects repaired by
+proposed_fixes/C10-output-time-landing.diff are violations in exact arithmetic
+as well (not rounding artefacts).  These definitions transcribe the pinned
+`_get_timestep`, `_dump_output_if_needed` and `solve`; they were compared bit
+for bit with the pinned implementation (1 513 traces, 132 826 events, none
+different) through the driver's `solve-pinned` op, which the harness selects
+with `C10_MODEL_VARIANT=pinned`; the registered check never uses them.
+-/
+namespace Pinned
+
+section
+variable {α : Type} [Add α] [Sub α] [Mul α] [Div α] [Neg α] [LT α] [DecidableLT α]
+  [OfNat α 0] [OfNat α 1]
+
+/-- pinned `_get_timestep`: restore only `if self._prev_dt is not None and
+abs(self._prev_dt - self.dt) > self._epsilon` -/
+def restorePrev (s : St α) : St α :=
+  match s.prevDt with
+  | some p => if s.eps < absv (p - s.dt) then { s with dt := p, prevDt := none } else s
+  | none => s
+
+def getTimestep (c : Cfg α) (s : St α) : St α :=
+  if absv (c.tf - s.t) < s.eps then s
+  else dampAndLand c (computeTimestep c (restorePrev s)).1 (computeTimestep c (restorePrev s)).2
+
+/-- pinned `timestep_too_big = (tdiff > 0.0) & (tdiff < dt)` -/
+def tooBig (s : St α) (T : α) : Bool := decide (0 < T - s.t) && decide (T - s.t < s.dt)
+
+/-- pinned choice among `indices`: the first, or the second when the first is
+within epsilon and there is a second -/
+def pickTime (s : St α) : List α → Option α
+  | [] => none
+  | [T] => some T
+  | T1 :: T2 :: _ => if absv (T1 - s.t) < s.eps then some T2 else some T1
+
+/-- pinned `if abs(output_time - self.t) > self._epsilon: self._prev_dt = dt; self.dt = …` -/
+def shorten (s : St α) : Option α → St α
+  | none => s
+  | some T => if s.eps < absv (T - s.t) then { s with prevDt := some s.dt, dt := T - s.t } else s
+
+def dumpIfNeeded (c : Cfg α) (s : St α) : St α × List (Ev α) :=
+  if absv (s.t - c.tf) < s.eps then (s, [])
+  else
+    let dump := (s.count % c.pfreq == 0) || nearAny s c.outT
+    let s' := shorten s (pickTime s (c.outT.filter (tooBig s)))
+    (s', if dump then [Ev.dump s'] else [])
+
+def iterSt (c : Cfg α) (s : St α) : St α := (dumpIfNeeded c (getTimestep c (advance c s))).1
+def iterEv (c : Cfg α) (s : St α) : List (Ev α) :=
+  [Ev.pre, Ev.step s, Ev.post] ++ (dumpIfNeeded c (getTimestep c (advance c s))).2
+
+def loop (c : Cfg α) : Nat → St α → St α × List (Ev α)
+  | 0, s => (s, [])
+  | fuel + 1, s =>
+    if guard c s then
+      let r := loop c fuel (iterSt c s)
+      (r.1, iterEv c s ++ r.2)
+    else (s, [])
+
+/-- pinned `solve`: the first step is whatever `_get_timestep` returns -/
+def solve (c : Cfg α) (dt0 : α) : St α × List (Ev α) :=
+  let r := loop c c.maxSteps (getTimestep c (init c dt0))
+  (r.1, [Ev.dump (init c dt0)] ++ r.2 ++ [Ev.dump r.1])
+end
+end Pinned
+
 end PysphVerif.SolverLoop
